@@ -67,6 +67,10 @@ def impl(case):
     for k, (p, q, as_str) in enumerate(case["pairs"]):
         P = build(p, routes[k][0]) if routes else PauliString(pauli_str=p)
         Q = q if as_str else (build(q, routes[k][1]) if routes else PauliString(pauli_str=q))
+        # both operands one and the same object (P ^ P, P | P, P @ P ...): every second pair of equal strings (a seeded change iterated
+        # zip(self, other), and a PauliString is its own iterator)
+        if not as_str and p == q and k % 2 == 0:
+            Q = P
         if routes and str(P) != p:
             out.append({"route_text": [routes[k][0], p, str(P)]}); continue
         r = {}
